@@ -42,6 +42,9 @@ def replay(cfg, events):
                     Graph(store=aud(e["w"]), identifier=v.gid(e["g"])).add(v.triple(e["t"]))
                 else:
                     ConjunctiveGraph(store=aud(e["w"])).add(v.triple(e["t"]) + (v.gid(e["g"]),))
+            elif op == "tx_addN":
+                # a batch through the store-level addN (the same quad may occur more than once)
+                aud(e["w"]).addN([v.triple(q) + (Graph(store=aud(e["w"]), identifier=v.gid(q[3])),) for q in e["quads"]])
             elif op == "tx_remove":
                 pat = v.triple(e["pat"])
                 if e["g"] == "*":
